@@ -51,10 +51,11 @@ Definition redact_paths : list path :=
     (path and inline PEM, wherever a TLS block occurs), proxy passwords,
     SOCKS5 passwords and password hashes, the agent private key, shell and
     file-transfer password hashes, the management and signing private keys.
-    As a rule on field names, so that a field added later is classified
-    too. *)
-Definition secret_last_names : list str :=
-  [lit "Password"; lit "PasswordHash"; lit "PrivateKey"; lit "SigningPrivateKey"; lit "KeyPEM"].
+    As a rule on field names (the last name ends in Password, PasswordHash,
+    PrivateKey or KeyPEM, or is Key inside a TLS block), so that a field
+    added later is classified too. *)
+Definition secret_name_suffixes : list str :=
+  [lit "Password"; lit "PasswordHash"; lit "PrivateKey"; lit "KeyPEM"].
 Definition tls_segment : str := lit "TLS".
 Definition key_name : str := lit "Key".
 End RedactText.
@@ -67,8 +68,10 @@ Fixpoint last_seg (p : path) : str :=
   | _ :: r => last_seg r
   end.
 
+Definition ends_with (s suffix : str) : bool := prefixb (rev suffix) (rev s).
+
 Definition is_secret_path (p : path) : bool :=
-  mem_s (last_seg p) secret_last_names ||
+  existsb (ends_with (last_seg p)) secret_name_suffixes ||
   (str_eqb (last_seg p) key_name && mem_s tls_segment p).
 
 Definition path_eqb (a b : path) : bool := strs_eqb a b.
